@@ -675,7 +675,7 @@ impl Tcb {
                 forall|j: int| 0 <= j < old(self).outgoing.retransmit@.len() && !fully_acked(#[trigger] old(self).outgoing.retransmit@[j], snd_una) ==>
                     self.outgoing.retransmit@.contains(old(self).outgoing.retransmit@[j]),
             decreases self.outgoing.retransmit@.len() - i,
-//@ before 1 `let seq = transmit.segment.header.seq;`
+//@ loop-start 1
             proof { reveal(rtx_wf); }
 //@ before 1 `self.outgoing.retransmit.remove(i);`
                 let ghost q0 = self.outgoing.retransmit@;
@@ -716,6 +716,12 @@ impl Tcb {
             || (final(self).snd.una == seg.ack && !circ_lt(old(self).snd.nxt, seg.ack) && seg.ack != old(self).snd.una),   //# una_advances_within_sent_data [C17,C01]
         // the send window is only ever set to the window the peer advertised in this segment
         final(self).snd.wnd == old(self).snd.wnd || final(self).snd.wnd == seg.wnd,   //# window_from_peer_only [C17]
+        // RFC 9293 3.10.7.4: a valid ACK that is not older (in the circular order) than the segment used for the last
+        // window update makes SND.WND follow the window the peer advertises now; an older one does not touch it
+        (r == ProcessSegmentResult::Success && final(self).snd.una != old(self).snd.una) ==> (
+            if circ_lt(old(self).snd.wl1, seg.seq) || (old(self).snd.wl1 == seg.seq && (circ_leq(old(self).snd.wl2, seg.ack)))
+            { final(self).snd.wnd == seg.wnd && final(self).snd.wl1 == seg.seq && final(self).snd.wl2 == seg.ack }
+            else { final(self).snd.wnd == old(self).snd.wnd && final(self).snd.wl1 == old(self).snd.wl1 && final(self).snd.wl2 == old(self).snd.wl2 }),   //# window_follows_the_latest_advertisement [C17,C12]
         final(self).outgoing.retransmit@.len() <= old(self).outgoing.retransmit@.len(),
         forall|k: int| 0 <= k < final(self).outgoing.retransmit@.len() ==> old(self).outgoing.retransmit@.contains(#[trigger] final(self).outgoing.retransmit@[k]),
 //@ end
@@ -1090,6 +1096,12 @@ impl Tcb {
             && seq_acceptable(old(self).rcv.nxt, old(self).rcv.wnd, segment.text@.len() as u32, segment.header.seq, false, segment.header.ctl.sfin())
             && cdist(segment.header.seq, old(self).rcv.nxt) <= segment.text@.len())
             ==> final(self).incoming.text@.len() - old(self).incoming.text@.len() == vstd::math::min(segment.text@.len() - cdist(segment.header.seq, old(self).rcv.nxt), 65535 - old(self).incoming.text@.len()),   //# acceptable_text_is_delivered [C01,C03]
+        // (C03, C01) RFC 9293 3.10.7.4 eighth: a FIN all of whose preceding text has been received is acknowledged -
+        //            also when it is a retransmission of a FIN that was consumed before (otherwise a lost ACK is never regenerated)
+        (old(self).state != State::SynSent && r == ProcessSegmentResult::Success && segment.header.ctl.sfin()
+            && final(self).rcv.nxt == add32(segment.header.seq, (segment.text@.len() + 1) as u32))
+            ==> (final(self).outgoing.oneshot@.len() > 0 && final(self).outgoing.oneshot@.last().ctl.sack()
+                 && final(self).outgoing.oneshot@.last().ack == final(self).rcv.nxt && !final(self).outgoing.oneshot@.last().ctl.srst()),   //# fin_is_acknowledged_even_when_retransmitted [C03,C01]
         // (C17) the send window only ever takes the value the peer advertised; SND.UNA never passes SND.NXT by this call
         final(self).snd.wnd == old(self).snd.wnd || final(self).snd.wnd == segment.header.wnd,   //# window_from_peer_only [C17]
 //@ end
